@@ -70,15 +70,40 @@ def run_case(idx, rng, P, rep):
     specs = [G.gen_spec(rng, rng.choice(G.C15_TYPES)) for _ in range(n)]
     cls, defaults = G.build_class(param, f'J{idx}', specs, rng)
     desc = G.describe(specs)
-    if rng.random() < 0.2:
+    if rng.random() < 0.3:
         # a deeper hierarchy: the parameters are declared at the top, a class in the middle gets new values at class level
         # after the bottom class has been serialised once; what is serialised from here on is the bottom class
         mid = type(f'J{idx}M', (cls,), {})
         tip = type(f'J{idx}T', (type(f'J{idx}L', (mid,), {}),), {})
         tip.param.serialize_parameters()
+        what = rng.choice(['add', 'sets', 'both'])
+        if what != 'sets':
+            # a parameter added at run time to the top class, which nobody has inspected so far
+            extra = G.gen_spec(rng, rng.choice(['Integer', 'Number', 'String', 'Boolean']))
+            top = cls
+            top_cls, top_defaults = G.build_class(param, f'J{idx}X', [extra], rng)
+            pobj = top_cls.__dict__[extra['name']]
+            extra['name'] = 'added_' + extra['name']
+            top.param.add_parameter(extra['name'], type(pobj)(**{**extra['kw'], 'default': pobj.default, 'allow_None': pobj.allow_None}))
+            specs.append(extra)
+            defaults[extra['name']] = pobj.default
+            rep.count('parameters_added_to_uninspected_top_class')
         st0 = G.state(rng, specs)
-        for k in rng.sample(sorted(st0), min(2, len(st0))):
-            setattr(mid, k, st0[k])
+        for k in rng.sample(sorted(st0), min(2, len(st0)) if what != 'add' else 0):
+            boom = None
+            if rng.random() < 0.5:
+                # a class-level watcher fails while the (accepted) assignment is announced: the assignment stands
+                def _boom(*evs):
+                    raise RuntimeError('class-level watcher failed')
+                boom = mid.param.watch(_boom, k)
+                rep.count('class_sets_with_failing_watcher')
+            try:
+                setattr(mid, k, st0[k])
+            except RuntimeError:
+                pass
+            finally:
+                if boom is not None:
+                    mid.param.unwatch(boom)
             defaults[k] = st0[k]
         cls = tip
         rep.count('class_level_sets_in_the_middle_of_a_hierarchy')
